@@ -1,0 +1,18 @@
+//go:build verif
+
+package threshold
+
+// Contracts for the deductive checker in /verif (comment-only; compiled only under the verif tag).
+
+// A threshold structure exists only with 2 <= t <= n over parties that exclude the reserved identifier 0.
+//@ func NewThresholdAccessStructure
+//@   property C02
+//@   uses sets
+//@   ensures err == nil ==> result != nil && result.t == t && result.ps == ps && t >= 2 && t <= scard(sset(ps)) && !sin(sset(ps), box(0))
+//@   ensures (ps != nil && t >= 2 && t <= scard(sset(ps)) && !sin(sset(ps), box(0))) ==> err == nil
+
+// Exactly the sets with at least t DISTINCT members, all of them shareholders, are qualified.
+//@ func (*Threshold).IsQualified
+//@   property C02
+//@   uses sets
+//@   ensures exists S V :: (forall y V :: sin(S, y) == exists j int :: 0 <= j && j < len(ids) && box(ids[j]) == y) && result == (scard(S) >= a.t && forall y V :: sin(S, y) ==> sin(sset(a.ps), y))
